@@ -105,6 +105,9 @@ pub enum DataCmdType {
     Setnx,
     Setrange,
     Strlen,
+    Substr,
+    Getdel,
+    Getex,
     Eval,
     Evalsha,
     Del,
@@ -191,6 +194,9 @@ impl DataCmdType {
             b"SETNX" => DataCmdType::Setnx,
             b"SETRANGE" => DataCmdType::Setrange,
             b"STRLEN" => DataCmdType::Strlen,
+            b"SUBSTR" => DataCmdType::Substr,
+            b"GETDEL" => DataCmdType::Getdel,
+            b"GETEX" => DataCmdType::Getex,
             b"EVAL" => DataCmdType::Eval,
             b"EVALSHA" => DataCmdType::Evalsha,
             b"DEL" => DataCmdType::Del,
